@@ -89,6 +89,8 @@ type world struct {
 	mkdirCalls   []string  // ghost: every os.MkdirAll the container issued
 	quietFS      bool      // file-system stubs never fail (harnesses that are not about failures)
 	onlyRun      bool      // launches always succeed (harnesses that are not about launch failures)
+	recordLaunch bool      // keep what the container handed to the launcher, per launch
+	launches     []launchRec
 	multiProc    bool      // the program may consist of two processes
 	hostConn     unsafe.Pointer
 	hostDeadline bool
@@ -403,6 +405,16 @@ type program struct {
 	secondReaped bool
 }
 
+// launchRec: what the container init passed to forkexec.Runner for one launch.
+type launchRec struct {
+	args, env      []string
+	nRLimits       int
+	filter         bool
+	syncBeforeExec bool
+	ctty           bool
+	execFile       bool
+}
+
 // Start modes of the abstract launcher (forkexec.Runner.Start replaced by its C07 contract).
 const (
 	startFailsEarly  = iota // fails before sync (lookup, clone, child step): error, callback never runs
@@ -416,6 +428,10 @@ const (
 // the abstract child did.  prepareExec and the rest of Start are the real code.
 func (w *world) modelFork(r *forkexec.Runner, argv0 *byte, argv, env []*byte, workdir, hostname, domainname, pivotRoot *byte, p [2]int) (uintptr, syscall.Errno) {
 	syscall.ForkLock.Lock() // released by the real Start
+	if w.recordLaunch {
+		w.launches = append(w.launches, launchRec{args: append([]string(nil), r.Args...), env: append([]string(nil), r.Env...),
+			nRLimits: len(r.RLimits), filter: r.Seccomp != nil, syncBeforeExec: r.SyncFunc != nil, ctty: r.CTTY, execFile: r.ExecFile != 0})
+	}
 	sym.Yield()
 	if w.onlyRun {
 		w.startMode = startSyncThenRun
